@@ -1,6 +1,10 @@
 package main
 
-import "strconv"
+import (
+	"go/ast"
+	"go/token"
+	"strconv"
+)
 
 func factsC14() {
 	// ---- C14: the syntactic shape of watchers.go the model relies on
@@ -21,4 +25,23 @@ func factsC14() {
 	addStrList("c14ComposeLiterals", lits, "first argument of h.compose in hdlr.Create, Update, Delete")
 	addStrList("c14InitChAssigns", methodAssigns(w, "watchers", "initCh"), "assignments to selectors inside watchers.initCh, in source order")
 	addStrList("c14CmChangeAssigns", methodAssigns(w, "watchers", "handlersCore"), "assignments to selectors inside watchers.handlersCore (the cmChange closure)")
+	// cmChange: `if data == nil { data = map[string]string{} }` (an emptied ConfigMap is a change)
+	nilToEmpty := false
+	ast.Inspect(methodDecl(w, "watchers", "handlersCore").Body, func(n ast.Node) bool {
+		ifs, ok := n.(*ast.IfStmt)
+		if !ok || len(ifs.Body.List) != 1 {
+			return true
+		}
+		cond, ok := ifs.Cond.(*ast.BinaryExpr)
+		if !ok || cond.Op != token.EQL || exprString(cond.X) != "data" || exprString(cond.Y) != "nil" {
+			return true
+		}
+		if as, ok := ifs.Body.List[0].(*ast.AssignStmt); ok && as.Tok == token.ASSIGN && len(as.Lhs) == 1 && exprString(as.Lhs[0]) == "data" {
+			if cl, ok := as.Rhs[0].(*ast.CompositeLit); ok && len(cl.Elts) == 0 {
+				nilToEmpty = true
+			}
+		}
+		return true
+	})
+	addBool("c14CmNilDataBecomesEmpty", nilToEmpty, "handlersCore/cmChange replaces a nil data map by an empty map before storing it")
 }
